@@ -57,9 +57,16 @@ class UMNDirHandler(DirHandler):
             # a link file.  If yes, process it and return false.
             if file[0] == ".":
                 if not self.vfs.isdir(self.selectorbase + "/" + file):
-                    self.linkentries.extend(
-                        self.processLinkFile(self.selectorbase + "/" + file)
-                    )
+                    # Only regular files can be link files; never open a
+                    # FIFO, socket or dangling symlink that happens to be
+                    # named like one.
+                    if self.vfs.isfile(self.selectorbase + "/" + file):
+                        try:
+                            self.linkentries.extend(
+                                self.processLinkFile(self.selectorbase + "/" + file)
+                            )
+                        except OSError:
+                            pass
                     return False
                 else:
                     return False  # A "dot dir" -- ignore.
